@@ -1,4 +1,10 @@
-/- dsmodel_density: model driver stub (filled in when the family is built). -/
-def main (_args : List String) : IO UInt32 := do
-  IO.eprintln "dsmodel_density: not built yet"
-  return 2
+/- dsmodel_density: `density` = update/merge/query histories of density sketches (C20). -/
+import DSModel.Density.Driver
+import DSModel.DriverLoop
+import DSGen.Density
+open DS
+
+def main (args : List String) : IO UInt32 := do
+  match args with
+  | ["density"] => runDriver ({ minK := DSGen.density_MIN_K } : Density.DState) Density.stepLine
+  | _ => IO.eprintln "usage: dsmodel_density density"; return 2
